@@ -139,7 +139,7 @@ func regularised_gamma_prefix(a, z float64) float64 {
     // special case for small a:
     prefix := math.Pow(z/10.0, a)
     prefix *= math.Exp(10.0 - z)
-    if 0.0 == prefix {
+    if 0.0 == prefix || math.IsNaN(prefix) {
       prefix = math.Pow((z*math.Exp((10.0-z)/a))/10.0, a)
     }
     prefix /= sum
